@@ -5,7 +5,7 @@ git -C /repo worktree remove --force "$WT" 2>/dev/null
 git -C /repo worktree add -q "$WT" HEAD || exit 2
 cp /repo/src/execnet/_version.py "$WT/src/execnet/_version.py" 2>/dev/null
 cd "$WT" || exit 2
-sed "s#/tmp/seed[23456789]\?_[A-Z0-9]*#$WT#g" "$D/demo.py" > "$WT/demo.py"
+sed "s#/tmp/seed[0-9]*_[A-Z0-9]*#$WT#g" "$D/demo.py" > "$WT/demo.py"
 PYTHONPATH="$WT/src" timeout 300 /venv/bin/python demo.py > "$WT/demo_without.log" 2>&1; RC_WITHOUT=$?
 git apply "$D/patch.diff" || { echo "patch does not apply"; exit 2; }
 PYTHONPATH="$WT/src" timeout 300 /venv/bin/python demo.py > "$WT/demo_with.log" 2>&1; RC_WITH=$?
